@@ -12,7 +12,7 @@ package markdown
 //@ use @verif/specs/stdlib.spec:stdlib
 //@ use @verif/specs/stdlib.spec:casket_api
 
-//@ unit markdown_parse props=C11 nilchecks=on dispenser_variants=on filter=`markdown\.(markdownParse|loadParams)$`
+//@ unit markdown_parse frames=on props=C11 nilchecks=on dispenser_variants=on filter=`markdown\.(markdownParse|loadParams)$`
 //@ // the parser of the `markdown` directive and its per-line helper: the configuration under construction always has its
 //@ // extension set, template set and template-file table (made by markdownParse before the block is read), so no
 //@ // sub-directive can store into a nil map or hand a nil template on; safety and termination for every token sequence
@@ -37,6 +37,7 @@ package markdown
 //@   loop 1 invariant c != nil && wfCfg(mdc)
 //@   loop 2 invariant c != nil && wfCfg(mdc)
 //@ func markdownParse
+//@   modifies Config.Scripts, Config.Styles, Dispenser.cursor, Dispenser.nesting, MD:map[string]*github.com/tmpim/casket/caskethttp/markdown.cachedFileInfo, MD:map[string]struct{}, MV:map[string]*github.com/tmpim/casket/caskethttp/markdown.cachedFileInfo, MV:map[string]struct{}
 //@   requires c != nil
 //@   loop 1 invariant c != nil
 //@   loop 2 invariant c != nil && wfCfg(md)
